@@ -36,10 +36,36 @@ def noncontiguous(a: np.ndarray) -> np.ndarray:
     return v
 
 
+def run_loss(c, e):
+    from fractions import Fraction
+
+    from mygrad.nnet.losses import margin_ranking_loss, multiclass_hinge
+
+    want = Fraction(e["num"], e["den"])
+    if c["kind"] == "hinge":
+        n, C = c["n"], c["c"]
+        x = fill_x(n * C).reshape(n, C)
+        y = np.array([(i * c["variant"]) % C for i in range(n)])
+        outs = {"keyword": multiclass_hinge(mg.tensor(x), y, hinge=c["h2"] / 2.0),
+                "positional": multiclass_hinge(mg.tensor(x), y, c["h2"] / 2.0)}
+    else:
+        n = c["n"]
+        x1, x2 = fill_x(n), fill_k(n)
+        y = np.array([1 if (i + 1 + c["variant"]) % 2 == 0 else -1 for i in range(n)])
+        outs = {"keyword": margin_ranking_loss(mg.tensor(x1), mg.tensor(x2), y, margin=c["m2"] / 2.0)}
+    for sp, out in outs.items():
+        got = float(out.data)
+        if abs(got - float(want)) > 1e-12:
+            return ("value", float(want), got, sp)
+    return None
+
+
 def run_config(item: dict):
     """Returns None if the implementation agrees with the table, else (what, predicted, observed)."""
     c, e = item["cfg"], item["expected"]
     kind = c["kind"]
+    if kind in ("hinge", "margin"):
+        return run_loss(c, e)
     for variant in ("contiguous", "strided"):
         try:
             if kind == "sw":
